@@ -92,6 +92,7 @@ func termMentions(t *Term, v ssa.Value, s string) bool {
 //   - on the branch where it is non-nil the function returns, and the returned
 //     error is derived from it (itself, fmt.Errorf(... %w ...), errors.Join,
 //     multierror.Append).
+//
 // accumulate allows the error to be appended to an accumulator that reaches
 // the return instead of returning at once.
 func (c *Ctx) errorFlowRule(rule string, fn *ssa.Function, exc []ErrException, control bool) int {
@@ -441,7 +442,9 @@ func (c *Ctx) listIterRule(rule string, fn *ssa.Function, control bool) int {
 	const next = "(*container/list.Element).Next"
 	const remove = "(*container/list.List).Remove"
 	n := 0
-	for _, ci := range callsTo(fn, func(name string, cc *ssa.CallCommon) bool { return cc.StaticCallee() != nil && cc.StaticCallee().String() == next }) {
+	for _, ci := range callsTo(fn, func(name string, cc *ssa.CallCommon) bool {
+		return cc.StaticCallee() != nil && cc.StaticCallee().String() == next
+	}) {
 		call, ok := ci.(*ssa.Call)
 		if !ok {
 			continue
